@@ -25,7 +25,9 @@ _FRAME_FUNCS = ['field:Int._unpack_fixed_and_primitive_size', 'field:Int._unpack
                 'structural_fields:Move.unpack', 'structural_fields:Move.pack',
                 'packet:Packet.__init__', 'packet:Packet.unpack_impl', 'C13#packet:Packet.pack_impl',
                 'packet:Packet.unpack', 'packet:Packet.pack', 'packet:Packet.__eq__', 'packet:Packet.__repr__',
-                'descriptor:Auto.__get__', 'descriptor:Auto.sync_before_pack']
+                'descriptor:Auto.__get__', 'descriptor:Auto.sync_before_pack',
+                'packet:Prototype.__init__', 'packet:Prototype._clone_from_pickle', 'packet:Prototype._clone_from_live_obj',
+                'C13#field:Ref._unpack_using_callable', 'field:Ref._pack_with_callable', 'field:Ref.init']
 
 _RT1 = ['ghost_clients:rt1_int_prim', 'ghost_clients:rt1_int_any', 'ghost_clients:rt1_data_fixed', 'ghost_clients:rt1_data_field',
         'ghost_clients:rt1_data_callable', 'ghost_clients:rt1_data_marker', 'ghost_clients:rt1_data_regex',
@@ -65,7 +67,9 @@ PROPERTIES = {
     'C14': dict(
         level='proof',
         functions=_LOCAL + ['structural_fields:Move.unpack', 'field:Data._unpack_with_string_marker',
-                            'field:Data._unpack_with_regexp_marker', 'packet:Packet.unpack_impl'],
+                            'field:Data._unpack_with_regexp_marker', 'packet:Packet.unpack_impl',
+                            # control decisions of containers depend on their callbacks only, never on what follows
+                            'structural_fields:Optional.unpack', 'structural_fields:Sequence.unpack'],
         trusted_base=_COMMON_TRUST + ['ghost clients only call repository functions through their contracts'],
         assumptions=[_COMPOSITION_NOTE,
                      'delimited Data: locality follows from the search-window clauses of the C06 contract (first occurrence at or after the cursor); no separate embedded-parse lemma yet',
@@ -91,7 +95,7 @@ PROPERTIES = {
                                       'copy.deepcopy / pickle round trip return fresh object graphs'],
         assumptions=['thread schedules are NOT explored: non-interference of operations on distinct packets follows from the proved frames '
                      '(disjoint write footprints, shared field objects only read) - the footprint argument of DESIGN.md 4.C13',
-                     'Ref with run-time selectors (F3: writes into the object returned by the selector) and deferred-expression callables are outside the functions under contract here (C09 covers exec_compiled_expr)',
+                     'deferred-expression callables are outside the functions under contract here (C09 covers exec_compiled_expr)',
                      'WFClass: slot sets of distinct fields are disjoint'],
         explanation='frames and freshness: every frame obligation of every pack/unpack/init function under contract',
     ),
@@ -110,11 +114,13 @@ PROPERTIES = {
     ),
     'C07': dict(
         level='proof',
-        functions=['field:Bits.unpack', 'field:Bits.pack'],
+        functions=['field:Bits.unpack', 'field:Bits.pack', 'field:Bits.__init__', 'field:Bits._compile', 'field:Bits.init',
+                   'field:Int.__init__', 'field:Int._compile', 'ghost_clients:bits_compile_establishes_wf'],
         lemmas=['C07.unpack_slice', 'C07.pack_merge'],
         trusted_base=_COMMON_TRUST + ['mask-shaped facts A1-A3 about & | ~ on unbounded python ints and << >> as multiplication / floor division by 2^s (assumed, cross-checked against CPython, bounded)',
                                       'product law of 2**n'],
-        assumptions=['BitsWF: the per-member shift/mask/shared-Int state established by Bits._compile is assumed (Bits._compile, Bits.init and the ByteBoundaryError check are NOT under contract in this round)',
+        assumptions=['BitsWF is established by Bits._compile (proved: lemma client bits_compile_establishes_wf) except for its last conjunct - the generated slot name "_bits__<names>" of the shared integer differs from the member names (string formatting, assumed)',
+                     'FieldsWF (assumed at class construction): the entries of the field list are distinct, allocated Field objects and Bits entries are not compiled twice (exec_once)',
                      'offset >= 0'],
     ),
     'C17': dict(
@@ -131,23 +137,28 @@ PROPERTIES = {
     'C19': dict(
         level='proof',
         functions=['field:Field.__init__', 'field:Field.init', 'field:Int.init', 'field:Data.init', 'field:Data.__init__',
-                   'structural_fields:Sequence.init', 'structural_fields:Optional.init', 'packet:Packet.__init__'],
-        trusted_base=_COMMON_TRUST + ['copy.deepcopy returns a fresh object graph for non-primitive values'],
+                   'structural_fields:Sequence.init', 'structural_fields:Optional.init', 'packet:Packet.__init__',
+                   'packet:Prototype.__init__', 'packet:Prototype._clone_from_pickle', 'packet:Prototype._clone_from_live_obj',
+                   'field:Ref.init'],
+        trusted_base=_COMMON_TRUST + ['copy.deepcopy returns a fresh object graph for non-primitive values',
+                                      'pickle.loads(pickle.dumps(x)) is a fresh object graph sharing nothing mutable with x'],
         assumptions=['embed=True is excluded (documented as experimental)',
-                     'Ref.init / Bits.init / Prototype.clone / Sequence.__init__ / Optional.__init__ are NOT under contract in this round'],
+                     'Bits.init / Sequence.__init__ / Optional.__init__ are NOT under contract in this round (Ref.init, Prototype.__init__ and both clone bodies are)'],
     ),
     'C08': dict(
         level='proof',
         functions=['structural_fields:Sequence.unpack', 'structural_fields:Sequence.pack',
                    'structural_fields:Optional.unpack', 'structural_fields:Optional.pack',
                    'field:Ref._unpack_referencing_a_packet', 'field:Ref._pack_referencing_a_packet',
+                   'field:Ref._unpack_using_callable', 'field:Ref._pack_with_callable',
                    'structural_fields:normalize_raw_condition_into_a_callable',
                    'structural_fields:normalize_count_condition_into_a_callable'],
         trusted_base=_COMMON_TRUST + ['abstract field contract role:FIELD.unpack / role:FIELD.pack for the element field (writes only the slots it owns)',
                                       'role contracts of user callbacks (count / when / until): pure, deterministic, do not raise PacketError'],
         assumptions=['slot sets of distinct fields of one packet are disjoint (WFClass, assumed)',
                      "the buffer's internal list is never a packet value",
-                     'Ref with a run-time selector (_unpack_using_callable/_pack_with_callable) and the field->expression conversion are NOT under contract in this round'],
+                     'Ref with a run-time selector: the selector is a role contract (pure, deterministic); its body writes into the Field object the selector '
+                     'returns (finding F3: frame wider than the abstract field contract); the field->expression conversion is NOT under contract'],
     ),
     'C12': dict(
         level='proof',
@@ -231,8 +242,8 @@ MANIFEST_TEXT = {
         text='Proof of the frame (modifies) clause and the freshness clauses of every pack / unpack / init function under contract: each writes only slots of its own packet argument, freshly allocated objects '
              'and (pack) the fragments argument; shared field objects are not written after compilation; objects stored into slots are fresh or immutable or supplied by the caller; pack leaves every field value unchanged. '
              'Independence across packets and threads then follows from disjoint footprints (argument, not exploration).',
-        note='Schedules are not executed. Known findings: K13a (regex-delimited Data writes the shared field object while parsing), K13c (pack rewrites the hidden slot of a described field, observable through ==). '
-             'Not under contract: Ref with run-time selectors (F3), Prototype.clone, Bits._compile/init.'),
+        note='Schedules are not executed. Known findings: K13a (regex-delimited Data writes the shared field object while parsing), K13c (pack rewrites the hidden slot of a described field, observable through ==), K13b (a Ref with a run-time selector renames the Field object the selector hands out on every parse: shared objects race). '
+             'The prototype of a reference is a snapshot (pickle or deep copy), never the live declaration object; each clone is deeply fresh. Not under contract: Bits._compile/init.'),
     'C04': dict(
         text='Proof for every value-bearing leaf kind (Int both code paths, Data all five modes, Bits runs of any width) and any input: a normal exit implies the value was decoded '
              'from exactly the declared number of bytes, all inside the input (delimiters inside input and search window); a short slice, negative size or missing delimiter has no normal exit; '
@@ -241,11 +252,13 @@ MANIFEST_TEXT = {
         note='Lifting to whole declarations goes through the abstract field contract of the packet drivers (C12); generated code through C03. The defect F1 (arbitrary-width Int decoded from a short slice) '
              'was found by this contract and repaired in /repo (fix: 761fcdc).'),
     'C07': dict(
-        text='Proof in two layers, for every width, shift and value without bound: (1) the real Bits.unpack / Bits.pack bodies compute (I & mask) >> shift and '
+        text='Proof in three layers, for every width, shift and value without bound: (1) the real Bits.unpack / Bits.pack bodies compute (I & mask) >> shift and '
              '((v << shift) & mask) | (I & ~mask) on the shared big-endian unsigned integer, read / emit the run only in the first / last member (VCs from the code); '
-             '(2) lemmas of pure integer arithmetic: the first is exactly the member\'s own slice; the second sets the own slice to v mod 2^w for any integer v and leaves every lower and higher disjoint slice untouched.',
-        note='The mask-shaped facts about python\'s bit operators on unbounded ints are assumed (cross-checked, bounded). Bits._compile (MSB-first shift assignment, byte-boundary rejection) '
-             'is assumed through the BitsWF precondition, not verified, in this round - stated in the evidence.'),
+             '(2) lemmas of pure integer arithmetic: the first is exactly the member\'s own slice; the second sets the own slice to v mod 2^w for any integer v and leaves every lower and higher disjoint slice untouched.'
+             ' (3) the real Bits._compile lays every run out MSB first: member j of the run gets shift = sum of the widths after it and mask = (2^w - 1) << shift, all members share one fresh big-endian unsigned Int of total/8 bytes '
+             '(whatever the class-level byte order), a total that is not a multiple of 8 raises ByteBoundaryError, and a run ends at every non-bit field (loop invariant over the reversed field list); '
+             'a lemma client shows this state is the BitsWF precondition of unpack / pack.',
+        note='The mask-shaped facts about python\'s bit operators on unbounded ints are assumed (cross-checked, bounded). exec_once and the field list handed to _compile by the class builder are assumed (FieldsWF).'),
     'C17': dict(
         text='Proof of the per-operation contracts from which every history follows by induction: with visible = computed value while the enabled flag is unset/true, '
              'hidden value otherwise - __get__ returns visible; __set__(v) makes visible == v (independent of the tracked field); __delete__ re-enables the computed value; '
@@ -256,16 +269,17 @@ MANIFEST_TEXT = {
     'C19': dict(
         text='Proof for the leaf kinds and the constructor driver: after init each field slot holds the keyword argument if named, else the declared default '
              '(Int/Data/Bits-like: the default object; containers and packets: a deep copy, i.e. a fresh object never shared); Data.__init__ computes NUL bytes of the declared '
-             'size for fixed byte strings without default and keeps the given default otherwise; Sequence/Optional init their own slot and the element scratch slot only.',
-        note='Ref.init, Bits.init, Prototype.clone and Sequence/Optional.__init__ are not yet under contract (listed in the evidence); copy.deepcopy is an assumed contract; embed=True excluded.'),
+             'size for fixed byte strings without default and keeps the given default otherwise; Sequence/Optional init their own slot and the element scratch slot only; '
+             'a reference defaults to a clone of its prototype, which is a snapshot taken at declaration time and cloned deeply (nothing mutable shared with the declaration or other packets).',
+        note='Bits.init and Sequence/Optional.__init__ are not yet under contract (listed in the evidence); copy.deepcopy and the pickle round trip are assumed contracts; embed=True excluded.'),
     'C08': dict(
         text='Proof for any element field (abstract field contract), any input and list length: the real bodies of Sequence.unpack/pack, Optional.unpack/pack and '
              'Ref (packet prototype) satisfy the control clauses of the statement - max(count,0) elements; until: >= 1 element and the loop stops exactly when the '
              'condition (evaluated after each element) is true; false when / count <= 0: empty list, nothing consumed; optional parsed iff its condition, None otherwise, '
              'absent optional emits nothing, a present one (0 and b\'\' included) is emitted; a reference stores a fresh instance of the prototype class and parses it in place; '
              'every element is parsed / emitted at the least aligned position; the normalisers map constant, field and callable counts to callables with the same value.',
-        note='Callbacks are role contracts (pure); ghost variables record what each callback returned in the execution. Ref with run-time selectors and the '
-             'field-to-boolean-expression conversion are not under contract (stated in the evidence); expression counts rely on C09.'),
+        note='Callbacks are role contracts (pure); ghost variables record what each callback returned in the execution. The '
+             'field-to-boolean-expression conversion is not under contract (stated in the evidence); expression counts rely on C09.'),
     'C06': dict(
         text='Proof for all inputs, offsets, sizes, marker strings and search windows: each of the five real Data unpack bodies takes exactly the declared '
              'number of bytes (constant / field / callable or compiled expression) or stops at the first occurrence of the marker inside the window '
